@@ -106,6 +106,19 @@ func TestC14Rapid(t *testing.T) {
 						dn.Major, dn.Minor = 42, 7
 					}
 					dn.Permissions = rapid.SampledFrom([]string{"", "rw"}).Draw(t, l+"perm")
+					// pointer-valued members: a shallow copy of the node still shares them with the cache
+					if rapid.Bool().Draw(t, l+"hasMode") {
+						m := os.FileMode(rapid.SampledFrom([]uint32{0o666, 0o2660, 8630, 0o4755 | 1<<31, 4294967295, 0}).Draw(t, l+"mode"))
+						dn.FileMode = &m
+					}
+					if rapid.Bool().Draw(t, l+"hasUid") {
+						u := rapid.SampledFrom([]uint32{0, 1000, 4294967295}).Draw(t, l+"uid")
+						dn.UID = &u
+					}
+					if rapid.Bool().Draw(t, l+"hasGid") {
+						g := rapid.SampledFrom([]uint32{0, 44, 4294967295}).Draw(t, l+"gid")
+						dn.GID = &g
+					}
 					out = append(out, dn)
 				}
 				return out
